@@ -140,6 +140,7 @@ class EventHandler(abc.ABC):
         self.ns_map = self.ns_context[-1]
 
         self.pending_tag = split_qname(qname)
+        self.reset_default_namespace()
         self.add_namespace(self.pending_tag[0])
 
     def add_attribute(self, qname: str, value: Any, root: bool = False) -> None:
